@@ -15,21 +15,27 @@ GROUP = {2: 11, 4: 12, 7: 13, 11: 14, 13: 15, 14: 16, 15: 17, 19: 2, 20: 2, 21: 
 
 def main():
     ck = Check('C06')
-    ll = driver.compile_ir('h_track_v2.cpp'); driver.load_module(ll)
     Q = TIER == 'quick'
     eo = {'max_steps': 40000000, 'max_paths': 4000}
     jobs = []
-    for sc in ([6, 0] if Q else [0, 1, 3, 6]):
-        for op, name in sorted(SETTERS.items()):
-            slots = [0] if op not in (20, 22) else ([0, 7] if Q else list(range(8)))
-            for slot in slots:
-                p = dict(schema=sc, op=op, slot=slot, focus=GROUP.get(op, 3), mask=ALL, grid=2, cues=0x81, loops=0x05, wave=0)
-                if GROUP.get(op, 3) >= 11: p.update(cues=0x01, loops=0)
-                if GROUP.get(op) == 2: p.update(cues=0x05, loops=0x02)      # fewer symbolic slots: each adds a -1 sentinel fork per snapshot
-                jobs.append(dict(harness='h_track_v2.cpp', ll=ll, entry='h_c06', params=p, models=['zlib_identity', 'kv_track_fast'], known=ck.known,
-                                 must_reach=['setter-checked', 'other-track-checked'], eng_opts=eo, replay='none', time_limit=1500, allow_throw='none', label=name))
-        if Q: SETTERS_Q = None
-    if Q: jobs = [j for j in jobs if j['params']['schema'] == 6 or j['params']['op'] in (4, 9, 14, 19, 24)]
+    GENS = [(2, 'h_track_v2.cpp', 'kv_track_fast', [6, 0] if Q else [0, 1, 3, 6]),
+            (1, 'h_track_v1.cpp', 'kv_track_v1', [10, 0] if Q else [0, 1, 3, 7, 10])]     # 1.x: 1.6.0, 1.7.1, 1.11.1, 1.15.0, 1.18.0-os (one per column-list range)
+    for gen, harness, kv, schemas in GENS:
+        ll = driver.compile_ir(harness); driver.load_module(ll)
+        for sc in schemas:
+            for op, name in sorted(SETTERS.items()):
+                slots = [0] if op not in (20, 22) else ([0, 7] if Q else list(range(8)))
+                for slot in slots:
+                    p = dict(schema=sc, op=op, slot=slot, focus=GROUP.get(op, 3), mask=ALL, grid=2, cues=0x81, loops=0x05, wave=0, gen=gen)
+                    if GROUP.get(op, 3) >= 11: p.update(cues=0x01, loops=0)
+                    if GROUP.get(op) == 2: p.update(cues=0x05, loops=0x02)      # fewer symbolic slots: each adds a -1 sentinel fork per snapshot
+                    p.update(vcues=p['cues'], vloops=p['loops'])
+                    if op in (19, 21): p.update(cues=0x41, loops=0x20, vcues=0x05, vloops=0x02)     # stored lists longer than the new ones: the slots beyond the new list must be cleared
+                    if gen == 1 and p['focus'] == 3: p.update(grid=0)          # 1.x: the stored BPM is derived from a (symbolic) grid when a sample rate is present (see C01)
+                    if Q and sc != schemas[0] and op not in (4, 9, 14, 19, 24): continue
+                    jobs.append(dict(harness=harness, ll=ll, entry='h_c06', params=p, models=['zlib_identity', kv + ('_slow' if gen == 1 and op == 15 else '')], known=ck.known,
+                                     must_reach=['setter-checked', 'other-track-checked'], eng_opts=eo, replay='none', time_limit=1500, allow_throw='none', label=name))
+    if os.environ.get('VERIF_GEN'): jobs = [j for j in jobs if str(j['params']['gen']) == os.environ['VERIF_GEN']]
     ck.add_results(run_jobs(jobs))
     ck.extra['bounds'] = {'setters': sorted(SETTERS.values()), 'slots': 'per-slot setters at slot 0 and 7 (thorough: every slot 0..7)',
                           'pre_state': 'track created from a snapshot whose focus group is symbolic; a second track created from another symbolic snapshot',
